@@ -48,6 +48,8 @@ Composite == { Opt(t) : t \in Small }
              \cup (IF Rich THEN { Struct2(t, u) : t \in Small, u \in Small } \cup { Union2(t, u) : t \in Small, u \in Small } ELSE
                    { Struct2(t, Prim("int", << <<0, 1>> >>)) : t \in Small } \cup { Union2(t, Prim("text", << <<0, 0>> >>)) : t \in Small })
              \cup { ListOf(t, 0, 2) : t \in Small } \cup { ListOf(t, 1, 1) : t \in Small }
+             \* size ranges that differ by their lower bound only (inclusion must look at both ends)
+             \cup { ListOf(t, 0, 1) : t \in { Prim("int", << <<0, 1>> >>), Prim("text", << <<0, 0>> >>) } }
              \cup { Opt(Opt(Prim("int", << <<0, 1>> >>))) }
 Types == Atomic \cup Composite
 
